@@ -116,6 +116,16 @@ Definition ratio_res (D : list (list Q)) (ix iy iz : list nat) : option Q :=
   let S := gmat (residuals D iz (ix ++ iy)) in
   ratio_of (det_piv (sub S 0 (length ix))) (det_piv (sub S (length ix) (length iy))) (Some 1) (det_piv S).
 
+(* ---- transformations the property speaks about (used in theorem statements only) ------------------- *)
+Fixpoint upd (c : nat) (f : Q -> Q) (r : list Q) : list Q :=
+  match r, c with
+  | [], _ => []
+  | x :: r', O => f x :: r'
+  | x :: r', S c' => x :: upd c' f r'
+  end.
+(* column c -> a * column c + b *)
+Definition rescale_col (c : nat) (a b : Q) (D : list (list Q)) : list (list Q) := map (upd c (fun x => a * x + b)) D.
+
 (* ---- the value: 1/2 ln ratio as a real-valued expression ------------------------------------------- *)
 Definition EQq (q : Q) : expr := EQ (Qnum q) (Zpos (Qden q)).
 Definition cmi_expr (q : Q) : expr := EMul (EQ 1 2) (ELn (EQq q)).
